@@ -274,6 +274,41 @@ def attribute_like_programs():
             yield ("dotted-names/" + desc.split("/", 1)[1], b)
 
 
+def two_domain_programs():
+    """two external modules of ONE name in two domains (different pin lists) in one design: valid instances of both, and an
+    instance of either wired for the OTHER one's pin list (refused, or exported well-formed - never checked against the
+    namesake's ports)"""
+    import hdl21 as h
+
+    def mk(order, fault):
+        def b():
+            E1 = h.ExternalModule(name="Twin", port_list=[h.Inout(name="a")], desc="", domain="dom1")
+            E2 = h.ExternalModule(name="Twin", port_list=[h.Inout(name="a"), h.Inout(name="b", width=2)], desc="", domain="dom2")
+            m = h.Module(name="TwoDomains")
+            m.s, m.t = h.Signal(), h.Signal()
+            m.w2 = h.Signal(width=2)
+            good = {"one": lambda: E1()(a=m.s), "two": lambda: E2()(a=m.s, b=m.w2)}
+            bad = {"none": None, "second-missing-port": lambda: E2()(a=m.t), "first-extra-port": lambda: E1()(a=m.t, b=m.w2),
+                   "second-wrong-width": lambda: E2()(a=m.t, b=m.t)}[fault]
+            # (with a faulty instance of one of the two, the valid instances in the design are all of the OTHER one)
+            faulty_of = {"none": None, "second-missing-port": "two", "first-extra-port": "one", "second-wrong-width": "two"}[fault]
+            for k, which in enumerate(order):
+                if which != faulty_of:
+                    m.add(good[which](), name=f"g{k}")
+            if bad is not None:
+                m.add(bad(), name="wired_for_the_namesake")
+            if faulty_of is None:
+                sub = h.Module(name="TwoDomainsSub")
+                sub.s = h.Signal()
+                sub.i = E1()(a=sub.s) if order[0] == "two" else E2()(a=sub.s, b=h.Concat(sub.s, sub.s))
+                m.sub = sub()
+            return m
+        return b
+    for order in (("one", "two"), ("two", "one"), ("one", "two", "one")):
+        for fault in ("none", "second-missing-port", "first-extra-port", "second-wrong-width"):
+            yield (f"two-domains/{'-'.join(order)}/{fault}", mk(order, fault))
+
+
 def extmodule_edit_programs():
     """an ExternalModule whose public pin list is changed after a first use (append / remove / replace an entry / a new
     list), and a second design wired for the OLD or for the NEW list: refused, or exported well-formed"""
@@ -446,11 +481,14 @@ def check_pkg(case):
         pkg = h.to_proto(top)
     except Exception:
         return None      # C06 speaks about packages that ARE returned (C01 covers rejected valid designs)
-    problems = wf_package(pkg)
+    tag = desc.split("@")[0] if desc.startswith("faulted/") else desc.split("/")[0]
+    problems = wf_package(pkg, netlisters=())          # closure, self-consistency, from_proto
     if problems:
-        tag = desc.split("@")[0] if desc.startswith("faulted/") else desc.split("/")[0]
         return (f"to_proto.post.wf_package/{problems[0].split(':')[-1].strip().split(' ')[0]}/{tag}",
                 f"{desc}: {problems[0][:300]}", {"design": desc})
+    problems = wf_package(pkg, roundtrip=False)        # ... and the two netlisters
+    if problems:
+        return (f"to_proto.post.wf_package/netlisters/{tag}", f"{desc}: {problems[0][:300]}", {"design": desc})
     return None
 
 
@@ -461,7 +499,7 @@ def run(ctx):
     ctx.verify(c_export.names_engine(), c_export.VERIFY_NAMES)
     from props.c01 import concat_designs
     cases = itertools.chain(design_family(ctx.tier, ctx.seed), concat_designs(), extra_programs(), compiled_programs(), edited_programs(), edited_after_export_programs(), faulted_programs(),
-                            adversarial_programs(), param_programs(), extmodule_edit_programs(), repaired_parent_programs(), attribute_like_programs())
+                            adversarial_programs(), param_programs(), extmodule_edit_programs(), repaired_parent_programs(), attribute_like_programs(), two_domain_programs())
     ctx.run_bounded("wf_package(to_proto(design))", cases, check_pkg,
                     rule=RULE + "; every concatenation of two or three pieces of one bus (C01's family, 285 designs); sample-PDK-compiled and walked designs holding two- and three-terminal passives of equal parameters (24); plus Series/MosStack/Wrapper over small parameter ranges; modules whose names were "
                          "re-used for another kind (16 pairs); modules edited after a first export (7 edits x 2 depths); the single-fault designs of C02 (a package returned for "
@@ -476,7 +514,7 @@ def replay(payload):
     if want:
         for tier in ("quick", "thorough"):
             for desc, b in itertools.chain(design_family(tier, 0), extra_programs(), edited_programs(), edited_after_export_programs(), faulted_programs(),
-                            adversarial_programs(), param_programs(), extmodule_edit_programs(), repaired_parent_programs(), attribute_like_programs()):
+                            adversarial_programs(), param_programs(), extmodule_edit_programs(), repaired_parent_programs(), attribute_like_programs(), two_domain_programs()):
                 if desc == want:
                     r = check_pkg((desc, b))
                     print("replay:", r)
